@@ -295,7 +295,7 @@ def run(tier, seed, replay):
             raise vlib.Broken("replay graph %s violates %s" % (name, g.violation))
         graph = vlib.Graph(g)
         calls = lambda e: e[1].get("n") in ("Call", "Fire")
-        paths, left = graph.cover(seed=seed, max_len=mode[2] if mode != "graph" else 60, max_paths=(2500 if big else 300), prefer=calls)
+        paths, left = graph.cover(seed=seed, max_len=mode[2] if mode != "graph" else 60, max_paths=((6000 if mode == "graph" else 2500) if big else 300), prefer=calls)
         walks = graph.random_walks(400 if big else 60, mode[2] if mode != "graph" else 60, seed=seed)
         behs += [graph.behaviour(p) for p in paths + walks]
         v.coverage["replay_graphs"][name] = {"mode": mode, "distinct": g.distinct, "edges": len(graph.edges), "cover_paths": len(paths),
